@@ -70,6 +70,8 @@ class Scratch:
         )
 
     def cleanup(self):
+        if os.environ.get("VERIF_KEEP_SCRATCH") == "1":  # debugging aid
+            return
         shutil.rmtree(self.dir, ignore_errors=True)
         if os.environ.get("VERIF_KEEP_CACHE", "1") == "0":
             shutil.rmtree(self.target, ignore_errors=True)
